@@ -23,7 +23,9 @@ CFG = dict(
          "(dyadic innovations) of every length 0..24 and then in steps up to 64 (300), with the nine null patterns, "
          "min_periods 1, omitted, random, len; compared exactly with the executable model and with a plain re-run of the "
          "search over the library's own vcorr_pearson(vshift(lag)); a case where a probed correlation is within 1e-9 of 0.5 "
-         "is only required not to panic (tag edge=1); branch counters in the tags (dbl, mid_above, mid_below, cap, ret0). "
+         "without being equal to it is only required not to panic (tag edge=1), a probed correlation of exactly 0.5 is "
+         "compared exactly (tag exact_half=1; six crafted series put it on a bisection midpoint); branch counters in the "
+         "tags (dbl, mid_above, mid_below, cap, ret0). "
          "i32 series: half_life panics in T::none() (DESIGN 5.4), reproduced by the model. nt=0 marks empty input.",
     theorem_hint="Props/C20.v: C20_winsorize_quantile, C20_winsorize_median, C20_winsorize_sigma, C20_clip_laws, "
                  "C20_quantile_bounds_ordered, C20_spearman, C20_rank_invariant, C20_spearman_invariant, "
